@@ -29,7 +29,9 @@ OTHER_TARGETS = [("POST", "/x"), ("POST", "/machine?comp=telemetrydata"), ("PUT"
                  ("POST", "/machine/?comp=TelemetryData&x=1"), ("POST", "/vmAgentLog"), ("PUT", "/machine/?comp=telemetrydata"),
                  ("put", "/vmAgentLog"), ("PUT", "/vmAgentLog?"), ("PUT", "/vmAgentLog?a"), ("PATCH", "/vmagentlog"),
                  ("PUT", "/vmAgentLog%20"), ("POST", "/machine/?comp=telemetrydata2"), ("POST", "/machine/?x=1&comp=telemetrydata"),
-                 ("PUT", "/metadata/vmAgentLog"), ("POST", "/machine//?comp=telemetrydata")]
+                 ("PUT", "/metadata/vmAgentLog"), ("POST", "/machine//?comp=telemetrydata"), ("PUT", "/vmAgentLog?comp=status"),
+                 ("PUT", "/VMAGENTLOG?x=1&y=2"), ("POST", "/machine/?comp=telemetrydata&"), ("POST", "/machine/?COMP=telemetrydata&comp=x"),
+                 ("PUT", "/vmAgentLog;v=1"), ("POST", "/machine/?comp=telemetrydata=")]
 
 
 def code_exempt_pairs():
@@ -138,6 +140,7 @@ def gen_cases(rng, quick):
     for m, t in OTHER_TARGETS:
         both_modes(m, t, L, L)
         both_modes(m, t, L + 1, L)
+        both_modes(m, t, rng.choice([2 * L, 5 * L + 3, 10 * L, rng.randint(L + 2, 20 * L)]), L)       # well over the low limit
     # every exempt spelling just above the LOW limit: must be accepted
     for m, t in EXEMPT_TARGETS:
         both_modes(m, t, rng.choice([L + 1, 2 * L, 3 * L + 17]), LARGE)
@@ -173,6 +176,9 @@ def gen_cases(rng, quick):
     # a non-exempt target declaring / sending 100 MiB-class bodies
     cases.append(mk_case(rng, "POST", "/x", G, None))
     cases.append(mk_case(rng, "PUT", "/vmAgentLog/", G + 1, None))
+    # near misses of the exempt uploads declaring a body of the 100 MiB class (refused without being read)
+    for m, t in rng.sample([x for x in OTHER_TARGETS if "gentlog" in x[1].lower() or "telemetry" in x[1].lower()], 3):
+        cases.append(mk_case(rng, m, t, rng.choice([G, G // 2, 30 * L]), None))
     cases.append(mk_case(rng, "POST", "/x", 8 * L, chunks_for(rng, 8 * L, L, "random")))
     return cases
 
@@ -205,8 +211,10 @@ def observe(r):
 
 # ------------------------------------------------------------------------------------------
 def run(ctx):
-    vplib.gen_consts(ctx)
+    broken = rc.gen_consts_or_search(ctx)
     proofs_ok, detail = vplib.check_proofs(ctx)
+    if broken:
+        proofs_ok, detail = False, broken
     ctx.log("proofs:", proofs_ok, detail[:200])
     rng = ctx.rng
     cases = gen_cases(rng, ctx.quick)
@@ -235,7 +243,8 @@ def run(ctx):
             cb(c["method"]), cb(path), rc.coq_opt(q), sel,
             "(@None N)" if declared is None else "(Some %d%%N)" % declared,
             clist(["%d%%N" % x for x in lens], "N")))
-    model = vplib.coq_eval(ctx, "From GPA Require Import Limit.", exprs, shard=40)
+    # with a broken translator the model would be evaluated against stale constants: predicate only
+    model = vplib.coq_eval(ctx, "From GPA Require Import Limit.", exprs, shard=40) if not broken else [None] * len(exprs)
 
     # ---------------- compare + property ----------------
     disagreements, failures = [], []
@@ -250,6 +259,8 @@ def run(ctx):
         why = prop_c15(c, obs)
         if why:
             failures.append({"case": replay, "why": why, "impl": obs})
+        if mo is None:
+            continue
         m_limit, m_skip, m_verdict = mo
         if obs["relayed"]:
             impl_verdict = ("VRelayed", obs["relayed"][0]["body_len"])
@@ -278,7 +289,7 @@ def run(ctx):
                 "counts and CRC-32; non-trivial = length >= L-1, distinct by (method, target, length, mode, kind)",
         "exhaustive": False,
         "samples": [{"request": "%s %s" % (cases[i]["method"], cases[i]["target"]), "bytes": cases[i]["n"],
-                     "mode": "declared" if cases[i]["chunks"] is None else "chunked", "model": list(model[i][2]),
+                     "mode": "declared" if cases[i]["chunks"] is None else "chunked", "model": list(model[i][2]) if model[i] else None,
                      "impl": {k: v for k, v in observe(results[i]).items() if k != "relayed"}}
                     for i in ([0, len(cases) // 2] + bigs[:2]) if results[i] and results[i].get("ok")],
         "input_distribution": {"requests": len(cases), "class_100MiB": len(bigs), "outcomes": outcomes,
